@@ -2,7 +2,7 @@
 import glob
 import os
 
-from common import coq_options, run_batch
+from common import REPO, coq_options, run_batch
 import sink
 import structcases
 import structgen
@@ -10,6 +10,7 @@ import wgslgen as W
 import c04
 
 ID = "C01"
+WANT_TOKS = True
 REQUIRES = ["Agree", "C01Spec"]
 THEOREM_REQUIRES = ["C01"]
 THEOREMS = ["C01_holds_partial", "C01_holds_structure"]
@@ -39,7 +40,7 @@ def permitted(diags):
 
 def fixture_cases():
     out = []
-    for f in sorted(glob.glob("/repo/wgsl_to_wgpu/src/data/**/*.wgsl", recursive=True)) + sorted(glob.glob("/repo/example/src/*.wgsl")):
+    for f in sorted(glob.glob(REPO + "/wgsl_to_wgpu/src/data/**/*.wgsl", recursive=True)) + sorted(glob.glob(REPO + "/example/src/*.wgsl")):
         src = open(f).read()
         for o in ({"mv": "Rust"}, {"mv": "Glam", "encase": True, "bm_vertex": True}, {"mv": "Nalgebra", "serde": True}):
             out.append({"wgsl": src, "family": "fixture", "opts": dict(o)})
@@ -77,6 +78,7 @@ def cases(rng, tier):
         c["opts"]["validate"] = (i % 4 == 2)
         if i % 9 == 0:
             c["include"] = "shaders/case_%d.wgsl" % i
+        c["want_toks"] = True      # whole-text correspondence: tokens of the returned text = Render.render of the model's output
     return out
 
 
@@ -113,7 +115,9 @@ def _model(c, r, ir):
 
 def verdict_expr(c, r, ir, real):
     kfs = "; ".join("on_out %s (fun o => %s)" % (real, p) for p in KF_PREDS)
-    return "[wf %s; agree_res out_eqb %s %s; %s; %s]" % (ir, _model(c, r, ir), real, "true" if _compiles(c, r) else "false", kfs)
+    tk = (" && tokens_agree %s toks_%d" % (_model(c, r, ir), c["id"])) if c.get("want_toks") else ""
+    return "[wf %s; agree_res out_eqb %s %s%s; %s; %s]" % (
+        ir, _model(c, r, ir), real, tk, "true" if _compiles(c, r) else "false", kfs)
 
 
 def verdict_expr_noout(c, r, ir):
@@ -122,8 +126,9 @@ def verdict_expr_noout(c, r, ir):
     (correspondence broken: (a) false); in both cases rustc decides (b), and the known-finding classes are decided on
     the MODEL's output, which still describes what this generator means to emit."""
     not_rust = "syn::parse_file failed" in str(r.get("extract_err"))
-    a = ("ir_has_keyword %s" % ir) if not_rust else "false"
     mo = _model(c, r, ir)
+    tk = (" && tokens_agree %s toks_%d" % (mo, c["id"])) if c.get("want_toks") else ""
+    a = ("ir_has_keyword %s%s" % (ir, tk)) if not_rust else "false"
     kfs = ["on_out %s (fun o => %s)" % (mo, p) for p in KF_PREDS]
     kfs[0] = "(%s || ir_has_keyword %s)" % (kfs[0], ir)
     return "[wf %s; %s; %s; %s]" % (ir, a, "true" if _compiles(c, r) else "false", "; ".join(kfs))
